@@ -921,7 +921,17 @@ def install(it):
     def unitab():
         nonlocal _ut
         if _ut is None:
-            pth = _os.path.join(_os.environ.get('VERIF_DIR', '/verif'), '.cache', 'unitab.json')
+            pth = _os.path.join((_os.environ.get('VERIF_DIR') or _os.path.dirname(_os.path.dirname(_os.path.dirname(_os.path.abspath(__file__))))), '.cache', 'unitab.json')
+            if not _os.path.exists(pth):
+                # generate the table from the real unicode package (setup.sh does this too)
+                import subprocess as _sp
+                root = _os.path.dirname(_os.path.dirname(pth))
+                _os.makedirs(_os.path.dirname(pth), exist_ok=True)
+                env = dict(_os.environ, GOFLAGS='-mod=mod', GOPROXY='off', GOSUMDB='off', GOTOOLCHAIN='local')
+                out = _sp.run(['go', 'run', '.'], cwd=_os.path.join(root, 'tools', 'unitab'), env=env, capture_output=True, text=True)
+                if out.returncode != 0:
+                    raise Unsupported('unicode table could not be generated: ' + out.stderr[-200:])
+                open(pth, 'w').write(out.stdout)
             _ut = _json.load(open(pth))
         return _ut
     def uni_hook(it_, name, r):
